@@ -415,15 +415,57 @@ type Finding struct {
 
 // CheckImage opens the crash image in dir in the way a restarted client does
 // and checks it against the model states before/after the interrupted
-// primitive. rng drives the follow-up append.
+// primitive. rng drives the follow-up append. (Store-level oracle only; see
+// ImageCheck for the block manager restart part.)
 func CheckImage(dir string, p *chaincfg.Params, before, after *Model, op Op, pt Point, rng *rand.Rand) []Finding {
+	fs, _ := (&ImageCheck{Dir: dir, Params: p, Before: before, After: after, Rng: rng,
+		Sig: ScriptSig(op, pt), Ctx: ScriptCtx(op, pt)}).Run()
+	return fs
+}
+
+// ScriptSig builds the signatures of the script family: c08/<rule>/<primitive
+// kind @ composite>/<crash-point class>.
+func ScriptSig(op Op, pt Point) func(rule string) string {
 	shape := fmt.Sprintf("%s%s/%s", op.Kind, tagOf(op), pt.Class)
+	return func(rule string) string { return "c08/" + rule + "/" + shape }
+}
+
+// ScriptCtx describes a crash point of the script family.
+func ScriptCtx(op Op, pt Point) string { return fmt.Sprintf("crash at %s during %v", pt.Name, op) }
+
+// ImageCheck is the recovery oracle applied to one crash image.
+type ImageCheck struct {
+	Dir           string
+	Params        *chaincfg.Params
+	Before, After *Model // states around the interrupted durable step
+	Sig           func(rule string) string
+	Ctx           string // "crash at <point> during <operation>"
+	Rng           *rand.Rand
+	// BM, when set, adds "syncing resumes": the real block manager is
+	// constructed on the reopened stores and handed one valid next header.
+	BM    *BMOpts
+	Stats *BMStats
+	// Extra, when set, runs on the reopened stores after the store-level
+	// rules passed and before anything is appended (it must only read).
+	Extra func(gotB []wire.BlockHeader, gotF []chainhash.Hash) []Finding
+	// Resume, when set, runs next on the same reopened stores and may change
+	// them (the import family re-runs the import here); it returns what the
+	// stores must hold afterwards. With BM set, the block manager is first
+	// constructed (only) on the untouched recovered stores; the one-header
+	// restart check and the follow-up appends then run on the resumed state.
+	Resume func(b headerfs.BlockHeaderStore, f headerfs.FilterHeaderStore) (m *Model, fs []Finding, inconclusive string)
+}
+
+// Run opens the crash image like a restarting client and applies the oracle.
+// inconclusive is non-empty when a watchdog (not the oracle) ended the check.
+func (c *ImageCheck) Run() (out []Finding, inconclusive string) {
+	dir, p, before, after, rng, ctx := c.Dir, c.Params, c.Before, c.After, c.Rng, c.Ctx
+	sig := c.Sig
 	db, b, f, err := OpenDir(dir, p)
 	if err != nil {
-		return []Finding{{"c08/reopen-fails/" + shape, fmt.Sprintf("stores do not open after a crash at %s during %v: %v", pt.Name, op, err)}}
+		return []Finding{{sig("reopen-fails"), fmt.Sprintf("stores do not open after a %s: %v", ctx, err)}}, ""
 	}
 	defer func() { CloseAll(db, b, f) }()
-	var out []Finding
 	// Block store: equal to the state before or after the primitive.
 	readB := func() ([]wire.BlockHeader, error) {
 		_, tip, err := b.ChainTip()
@@ -457,11 +499,11 @@ func CheckImage(dir string, p *chaincfg.Params, before, after *Model, op Op, pt 
 	}
 	gotB, err := readB()
 	if err != nil {
-		return []Finding{{"c08/block-store-unreadable/" + shape, fmt.Sprintf("after a crash at %s during %v: %v", pt.Name, op, err)}}
+		return []Finding{{sig("block-store-unreadable"), fmt.Sprintf("after a %s: %v", ctx, err)}}, ""
 	}
 	gotF, err := readF()
 	if err != nil {
-		return []Finding{{"c08/filter-store-unreadable/" + shape, fmt.Sprintf("after a crash at %s during %v: %v", pt.Name, op, err)}}
+		return []Finding{{sig("filter-store-unreadable"), fmt.Sprintf("after a %s: %v", ctx, err)}}, ""
 	}
 	eqB := func(m *Model) bool {
 		if len(m.Blocks) != len(gotB) {
@@ -486,15 +528,15 @@ func CheckImage(dir string, p *chaincfg.Params, before, after *Model, op Op, pt 
 		return true
 	}
 	if !eqB(before) && !eqB(after) {
-		out = append(out, Finding{"c08/block-store-neither-before-nor-after/" + shape,
-			fmt.Sprintf("crash at %s during %v: block store holds %d headers, before=%d after=%d, and matches neither", pt.Name, op, len(gotB), len(before.Blocks), len(after.Blocks))})
+		out = append(out, Finding{sig("block-store-neither-before-nor-after"),
+			fmt.Sprintf("%s: block store holds %d headers, before=%d after=%d, and matches neither", ctx, len(gotB), len(before.Blocks), len(after.Blocks))})
 	}
 	if !eqF(before) && !eqF(after) {
-		out = append(out, Finding{"c08/filter-store-neither-before-nor-after/" + shape,
-			fmt.Sprintf("crash at %s during %v: filter store holds %d headers, before=%d after=%d, and matches neither", pt.Name, op, len(gotF), len(before.Filters), len(after.Filters))})
+		out = append(out, Finding{sig("filter-store-neither-before-nor-after"),
+			fmt.Sprintf("%s: filter store holds %d headers, before=%d after=%d, and matches neither", ctx, len(gotF), len(before.Filters), len(after.Filters))})
 	}
 	if len(gotF) > len(gotB) {
-		out = append(out, Finding{"c08/filter-ahead-of-blocks/" + shape, fmt.Sprintf("filter tip %d above block tip %d", len(gotF)-1, len(gotB)-1)})
+		out = append(out, Finding{sig("filter-ahead-of-blocks"), fmt.Sprintf("%s: filter tip %d above block tip %d", ctx, len(gotF)-1, len(gotB)-1)})
 	}
 	// Flat files hold whole records only.
 	for _, ff := range []struct {
@@ -504,11 +546,11 @@ func CheckImage(dir string, p *chaincfg.Params, before, after *Model, op Op, pt 
 	}{{blockFile, 80, len(gotB)}, {filtFile, 32, len(gotF)}} {
 		st, err := os.Stat(filepath.Join(dir, ff.name))
 		if err == nil && st.Size()%ff.rec != 0 {
-			out = append(out, Finding{"c08/torn-tail-kept/" + ff.name + "/" + shape,
-				fmt.Sprintf("after reopening, %s is %d bytes: not a multiple of the %d-byte record (crash at %s during %v)", ff.name, st.Size(), ff.rec, pt.Name, op)})
+			out = append(out, Finding{sig("torn-tail-kept/" + ff.name),
+				fmt.Sprintf("after reopening, %s is %d bytes: not a multiple of the %d-byte record (%s)", ff.name, st.Size(), ff.rec, ctx)})
 		} else if err == nil && st.Size() != int64(ff.n)*ff.rec {
-			out = append(out, Finding{"c08/file-length-disagrees-with-tip/" + ff.name + "/" + shape,
-				fmt.Sprintf("after reopening, %s holds %d records but the tip says %d", ff.name, st.Size()/ff.rec, ff.n)})
+			out = append(out, Finding{sig("file-length-disagrees-with-tip/" + ff.name),
+				fmt.Sprintf("after reopening, %s holds %d records but the tip says %d (%s)", ff.name, st.Size()/ff.rec, ff.n, ctx)})
 		}
 	}
 	// By-hash lookups of what is stored, and of what the other candidate
@@ -516,7 +558,7 @@ func CheckImage(dir string, p *chaincfg.Params, before, after *Model, op Op, pt 
 	for i := range gotB {
 		h := gotB[i].BlockHash()
 		if ht, err := b.HeightFromHash(&h); err != nil || ht != uint32(i) {
-			out = append(out, Finding{"c08/index-disagrees/" + shape, fmt.Sprintf("stored header %d not found by hash (err=%v height=%d)", i, err, ht)})
+			out = append(out, Finding{sig("index-disagrees"), fmt.Sprintf("%s: stored header %d not found by hash (err=%v height=%d)", ctx, i, err, ht)})
 			break
 		}
 	}
@@ -524,15 +566,54 @@ func CheckImage(dir string, p *chaincfg.Params, before, after *Model, op Op, pt 
 		for i := len(gotB); i < len(m.Blocks); i++ {
 			h := m.Blocks[i].BlockHash()
 			if _, err := b.HeightFromHash(&h); err == nil && (i >= len(gotB) || gotB[i] != m.Blocks[i]) {
-				out = append(out, Finding{"c08/stale-index-entry/" + shape, fmt.Sprintf("header %d of the interrupted operation is not stored but is still found by hash", i)})
+				out = append(out, Finding{sig("stale-index-entry"), fmt.Sprintf("%s: header %d of the interrupted operation is not stored but is still found by hash", ctx, i)})
 				break
 			}
 		}
 	}
 	if len(out) > 0 {
-		return out
+		return out, ""
 	}
-	// Syncing resumes: an append lands at the right height and reads back.
+	if c.Extra != nil {
+		if out = c.Extra(gotB, gotF); len(out) > 0 {
+			return out, ""
+		}
+	}
+	if c.Resume != nil {
+		if c.BM != nil {
+			now := c.BM.Now
+			if now.IsZero() {
+				now = gotB[len(gotB)-1].Timestamp.Add(time.Hour)
+			}
+			_, rule, what := ConstructBM(p, b, f, now)
+			switch {
+			case rule == bmInconclusive:
+				return nil, what
+			case rule != "":
+				return []Finding{{sig(rule), fmt.Sprintf("%s: %s", ctx, what)}}, ""
+			}
+			c.Stats.add(1, 0, 0)
+		}
+		m, fs, inc := c.Resume(b, f)
+		if len(fs) > 0 || inc != "" {
+			return fs, inc
+		}
+		gotB, gotF = m.Blocks, m.Filters
+	}
+	// Syncing resumes (1): the real block manager starts on these stores and
+	// commits one valid next header.
+	if c.BM != nil {
+		next, rule, what := RestartBM(p, b, f, gotB, c.BM, c.Stats)
+		switch {
+		case rule == bmInconclusive:
+			return nil, what
+		case rule != "":
+			return []Finding{{sig(rule), fmt.Sprintf("%s: %s", ctx, what)}}, ""
+		case next != nil:
+			gotB = append(append([]wire.BlockHeader(nil), gotB...), *next)
+		}
+	}
+	// Syncing resumes (2): an append lands at the right height and reads back.
 	prev := gotB[len(gotB)-1]
 	var batch []headerfs.BlockHeader
 	var want []wire.BlockHeader
@@ -544,33 +625,33 @@ func CheckImage(dir string, p *chaincfg.Params, before, after *Model, op Op, pt 
 		prev = h
 	}
 	if err := b.WriteHeaders(batch...); err != nil {
-		return []Finding{{"c08/append-after-recovery-fails/" + shape, fmt.Sprintf("block append after recovery: %v", err)}}
+		return []Finding{{sig("append-after-recovery-fails"), fmt.Sprintf("%s: block append after recovery: %v", ctx, err)}}, ""
 	}
 	again, err := readB()
 	if err != nil || len(again) != len(gotB)+2 || again[len(gotB)] != want[0] || again[len(gotB)+1] != want[1] {
-		return []Finding{{"c08/append-after-recovery-misplaced/block/" + shape, fmt.Sprintf("headers appended after recovery do not read back at heights %d,%d (err=%v, n=%d)", len(gotB), len(gotB)+1, err, len(again))}}
+		return []Finding{{sig("append-after-recovery-misplaced/block"), fmt.Sprintf("%s: headers appended after recovery do not read back at heights %d,%d (err=%v, n=%d)", ctx, len(gotB), len(gotB)+1, err, len(again))}}, ""
 	}
 	for k := range gotB {
 		if again[k] != gotB[k] {
-			return []Finding{{"c08/append-after-recovery-shifted/block/" + shape, fmt.Sprintf("stored header %d changed after appending", k)}}
+			return []Finding{{sig("append-after-recovery-shifted/block"), fmt.Sprintf("%s: stored header %d changed after appending", ctx, k)}}, ""
 		}
 	}
 	var fh chainhash.Hash
 	rng.Read(fh[:])
 	nh := len(gotF)
 	if err := f.WriteHeaders(headerfs.FilterHeader{FilterHash: fh, HeaderHash: again[nh].BlockHash(), Height: uint32(nh)}); err != nil {
-		return []Finding{{"c08/append-after-recovery-fails/filter/" + shape, fmt.Sprintf("filter append after recovery: %v", err)}}
+		return []Finding{{sig("append-after-recovery-fails/filter"), fmt.Sprintf("%s: filter append after recovery: %v", ctx, err)}}, ""
 	}
 	againF, err := readF()
 	if err != nil || len(againF) != nh+1 || againF[nh] != fh {
-		return []Finding{{"c08/append-after-recovery-misplaced/filter/" + shape, fmt.Sprintf("filter header appended after recovery does not read back at height %d (err=%v n=%d)", nh, err, len(againF))}}
+		return []Finding{{sig("append-after-recovery-misplaced/filter"), fmt.Sprintf("%s: filter header appended after recovery does not read back at height %d (err=%v n=%d)", ctx, nh, err, len(againF))}}, ""
 	}
 	for k := range gotF {
 		if againF[k] != gotF[k] {
-			return []Finding{{"c08/append-after-recovery-shifted/filter/" + shape, fmt.Sprintf("stored filter header %d changed after appending", k)}}
+			return []Finding{{sig("append-after-recovery-shifted/filter"), fmt.Sprintf("%s: stored filter header %d changed after appending", ctx, k)}}, ""
 		}
 	}
-	return nil
+	return nil, ""
 }
 
 func tagOf(op Op) string {
